@@ -81,7 +81,7 @@ ALSO = {
 # general clause families (sa/rules/gen.py): registered for every property they can attribute a finding to
 def _register_general():
     from sa.rules import gen
-    fn_of = {"T": ("r_truth",), "M": ("r_memo",), "O": ("r_options",), "S": ("r_shallow", "r_intern"), "P": ("r_postponed",), "V": ("r_records",), "F": ("r_forward",), "I": ("r_oneshot",)}
+    fn_of = {"T": ("r_truth",), "M": ("r_memo",), "O": ("r_options",), "S": ("r_shallow", "r_intern"), "P": ("r_postponed",), "V": ("r_records",), "F": ("r_forward",), "I": ("r_oneshot",), "Q": ("r_postponed_exit",)}
     for fam, ps in gen.families().items():
         for p in sorted(ps):
             for f_ in fn_of[fam]:
